@@ -576,6 +576,57 @@ func (x *exec) structToView(u Unit, o lib, b []byte, root chunk) {
 		x.viol("C05", "struct-to-view-root/"+u.Type, fmt.Sprintf("%s (%s): value.View() has root %s, the value has root %x (value %s)", u.Type, x.presetName(), r, root, hex8(b)))
 		return
 	}
+	// and back: view.Raw() is the value again
+	if rm := outs[0].MethodByName("Raw"); rm.IsValid() {
+		rt := rm.Type()
+		var rargs []reflect.Value
+		callable := true
+		for i := 0; i < rt.NumIn(); i++ {
+			if rt.In(i) == specPtrType {
+				rargs = append(rargs, reflect.ValueOf(x.spec))
+			} else {
+				callable = false
+			}
+		}
+		// only a conversion back to the value's own type is a round trip (InactivityScores.View() is
+		// declared to return a participation-registry wrapper, whose Raw() is about another type)
+		if callable && rt.NumOut() >= 1 {
+			want := reflect.TypeOf(o.v) // pointer to the struct form
+			if rt.Out(0) != want && rt.Out(0) != want.Elem() {
+				callable = false
+				x.res.Stat("view_to_struct_other_type/"+u.Type, 1)
+			}
+		}
+		if callable && rt.NumOut() >= 1 {
+			var routs []reflect.Value
+			if p := guard(func() { routs = rm.Call(rargs) }); p != "" {
+				x.viol("C05", "view-to-struct-panics/"+u.Type, fmt.Sprintf("%s: View().Raw() panics: %s", u.Type, p))
+				return
+			}
+			if last := routs[len(routs)-1]; len(routs) > 1 && last.Type().Implements(errorType) && !last.IsNil() {
+				x.viol("C04", "view-to-struct-fails/"+u.Type, fmt.Sprintf("%s (%s): View().Raw() of a valid value fails: %v", u.Type, x.presetName(), last.Interface()))
+				return
+			}
+			rv := routs[0]
+			if rv.Kind() != reflect.Ptr {
+				pv := reflect.New(rv.Type())
+				pv.Elem().Set(rv)
+				rv = pv
+			}
+			if !rv.IsNil() {
+				back := lib{x.spec, rv.Interface()}
+				var bb bytes.Buffer
+				var err error
+				if p := guard(func() { err = back.serialize(&bb) }); p == "" && err != errHarness {
+					x.res.Stat("view_to_struct_roundtrips", 1)
+					if err != nil || !bytes.Equal(bb.Bytes(), b) {
+						x.viol("C04", "view-to-struct-differs/"+u.Type, fmt.Sprintf("%s (%s): value.View().Raw() is not the value: %d bytes before, %d after (err %v), first difference at byte %d", u.Type, x.presetName(), len(b), bb.Len(), err, firstDiff(bb.Bytes(), b)))
+						return
+					}
+				}
+			}
+		}
+	}
 	if sv, ok := outs[0].Interface().(interface {
 		Serialize(w *codec.EncodingWriter) error
 	}); ok {
